@@ -319,12 +319,14 @@ pub fn process_weak_refs(
             .ephemerons
             .iter()
             .map(|e| {
-                let pretenured = w
-                    .objs
-                    .get(&e.key)
-                    .map(|o| matches!(o.sem, SEM_IMMORTAL | SEM_NONMOVING))
-                    .unwrap_or(false);
-                (e.clone(), nursery && pretenured)
+                let sem = w.objs.get(&e.key).map(|o| o.sem);
+                let pretenured = matches!(sem, Some(SEM_IMMORTAL) | Some(SEM_NONMOVING));
+                // An immortal object never dies, so the binding never asks about it: besides
+                // nursery pauses, ImmortalSpace::is_reachable is also false at FinalMark for
+                // immortal objects allocated while concurrent marking ran (they are not marked
+                // at allocation and nothing traces them).
+                let immortal = matches!(sem, Some(SEM_IMMORTAL));
+                (e.clone(), immortal || (nursery && pretenured))
             })
             .collect();
         (eph, strong)
